@@ -344,6 +344,9 @@ def run_scenario(sc: dict) -> list[dict]:
                     await vloop.settle()
             # wrap-up: the environment lets everything finish (release hooks, client goes away, idle timeout)
             rec({"k": "wrapup", "diverged": diverged})
+            for op in sc.get("probe", ()):  # e.g. the environment completes every connect that is pending
+                if not hc.done() and act(op):
+                    await vloop.settle()
             gating["on"] = False
             for _round in range(4):
                 for fut in list(gates.values()):
@@ -627,6 +630,8 @@ class Check(core.PropertyCheck):
         for b, k in self._extra_behs:
             sc = self._scenario(b, k)
             sc.source = "simulate"
+            if k == 5:  # bound instance: afterwards every pending connect succeeds (at most five can be pending)
+                sc.data["probe"] = [["ok", i] for i in range(1, self.BOUND["MaxConns"] + 1)]
             yield sc
         rng = random.Random(ctx.seed + 9)
         for _ in range(500 if ctx.quick else 8000):
